@@ -43,8 +43,8 @@ type FnInfo struct {
 	// counted as success exits by successWitness (the callee discharges the
 	// obligation under analysis).
 	ignoreTail map[*ssa.Call]bool
-	mod      map[stKey]bool           // struct fields (of error type) this function may store to, transitively
-	modDone  bool
+	mod        map[stKey]bool // struct fields (of error type) this function may store to, transitively
+	modDone    bool
 }
 
 type nnKey struct {
